@@ -73,6 +73,14 @@ impl Debug for CountMinRow {
     }
 }
 
+#[cfg(feature = "verif-hooks")]
+impl CountMinRow {
+    /// Verification hook: the packed counters.
+    pub(crate) fn verif_bytes(&self) -> Vec<u8> {
+        self.0.clone()
+    }
+}
+
 #[cfg(test)]
 mod test {
     use crate::lfu::tinylfu::sketch::count_min_row::CountMinRow;
